@@ -131,9 +131,16 @@ type Runner struct {
 func (r *Runner) violate(prop, kind string, data any, f string, a ...any) {
 	// keep at most three instances per signature (kind + creation mode) so that one recurring finding does not
 	// stop the exploration of the remaining behaviours
+	msg := fmt.Sprintf(f, a...)
 	sig := kind
 	if b, ok := data.(*Behaviour); ok {
 		sig += "|" + b.Mode
+	}
+	// the history class stated in the message distinguishes findings of one kind
+	if i := strings.Index(msg, "; "); i >= 0 {
+		if j := strings.Index(msg[i:], ")"); j >= 0 {
+			sig += "|" + msg[i:i+j]
+		}
 	}
 	if r.perSig == nil {
 		r.perSig = map[string]int{}
@@ -142,7 +149,7 @@ func (r *Runner) violate(prop, kind string, data any, f string, a ...any) {
 	if r.perSig[sig] > 3 {
 		return
 	}
-	r.Res.Violations = append(r.Res.Violations, Violation{Property: prop, Kind: kind, Msg: fmt.Sprintf(f, a...), Data: data})
+	r.Res.Violations = append(r.Res.Violations, Violation{Property: prop, Kind: kind, Msg: msg, Data: data})
 }
 
 func scan(ctx context.Context, n *cluster.Node, prefix string, pats [][]byte) (bool, error) {
